@@ -73,6 +73,8 @@ def binop(op: str, l: E, r: E, value: int) -> E:
 
 def unary(sign: str, e: E) -> E:
     e = wrap(e, P_UNARY)
+    if e.toks[-1][-2:] in (".w", ".h", ".b"):
+        e = paren(e)  # whether a sign or a size suffix binds tighter is not documented: keep `-x.b` out
     return E([sign] + e.toks, -e.value if sign == "-" else e.value, P_UNARY, None, e.ops + 1)
 
 
